@@ -202,6 +202,25 @@ class Ctx:
         print("  " + what)
         sys.stdout.flush()
 
+    def apalache(self, module, init, inv, length, timeout=1800, label=None, expect_violation=False):
+        """Run `apalache-mc check --init=<init> --inv=<inv> --length=<length>` on spec/<module>.tla in the scratch copy.
+        Returns True if no error was found, False if the invariant is violated; anything else is a ToolError."""
+        label = label or ("apa_%s_%s_%s" % (module, init, inv))
+        outdir = os.path.join(self.scratch, label)
+        cmd = ["apalache-mc", "check", "--out-dir=" + outdir, "--init=" + init, "--inv=" + inv, "--length=%d" % length, module + ".tla"]
+        try:
+            r = subprocess.run(cmd, cwd=self.specdir, stdout=subprocess.PIPE, stderr=subprocess.STDOUT, text=True, timeout=timeout)
+        except subprocess.TimeoutExpired:
+            raise ToolError("apalache timed out after %ds on %s %s/%s" % (timeout, module, init, inv))
+        self.tlc_runs.append({"label": label, "tool": "apalache", "module": module, "init": init, "inv": inv, "length": length,
+                              "result": "ok" if "EXITCODE: OK" in r.stdout else "violated" if "violated" in r.stdout else "error"})
+        shutil.rmtree(outdir, ignore_errors=True)
+        if "EXITCODE: OK" in r.stdout:
+            return True
+        if "invariant 0 violated" in r.stdout or "Found 1 error" in r.stdout:
+            return False
+        raise ToolError("apalache failed on %s: %s" % (module, r.stdout[-800:]))
+
     def note(self, what):
         """A disagreement between a specification and the code that lies outside the statement of the property this check decides
         (extra coverage of the specification): printed and recorded, never a verdict."""
